@@ -367,6 +367,7 @@ def run(ctx) -> None:
 
     default_calendar_rule(ctx, "R4")
     shapes.memo_rule(ctx, "R4")
+    shapes.config_version_validated_rule(ctx, "R5")
 
     # ---------------------------------------------------------------- R5
     self_pattern_rule(ctx, "R5")
